@@ -105,10 +105,14 @@ def check_summary_axes(tag, axes, df, x, fs, th, a, b, plot_only_result, interp)
     sig_line, burst_line = plain[0], plain[1]
     sx, sy = xy(sig_line)
     s_idx = np.rint(np.asarray(sx, dtype=float) * fs).astype(int)
+    if len(s_idx) and (s_idx.min() < 0 or s_idx.max() >= n):
+        raise Violation(tag + ':signal-trace', 'the black trace is drawn at times outside the recording (samples %d .. %d of %d)' % (s_idx.min(), s_idx.max(), n))
     if len(s_idx) and (np.max(np.abs(np.asarray(sx) - s_idx / fs)) >= 0.25 / fs or not ref.same_float(np.asarray(sy, dtype=float), z[s_idx])):
         raise Violation(tag + ':signal-trace', 'the black trace is not the normalised signal on the window')
     bx, by = xy(burst_line)
     b_idx = np.rint(np.asarray(bx, dtype=float) * fs).astype(int)
+    if len(b_idx) and (b_idx.min() < 0 or b_idx.max() >= n):
+        raise Violation(tag + ':burst-trace', 'the highlighted trace is drawn at times outside the recording')
     unmasked = b_idx[~np.ma.getmaskarray(by)]
     lab = df['is_burst'].values.astype(bool)
     last, nxt = df[nm['last']].values.astype(int), df[nm['next']].values.astype(int)
